@@ -508,8 +508,8 @@ func deleteIndex(inIndexName string, myid int64, ctx *fasthttp.RequestCtx) ([]st
 			log.Errorf("deleteIndex : Failed to delete virtual table for indexName = %v err: %v", indexName, err)
 		}
 
-		writer.DeleteSegmentsForIndex(indexName)
-		writer.DeleteVirtualTableSegStore(indexName)
+		writer.DeleteSegmentsForIndex(indexName, myid)
+		writer.DeleteVirtualTableSegStore(indexName, myid)
 		metadata.DeleteVirtualTable(indexName, myid)
 	}
 	return convertedIndexNames, indicesNotFound
